@@ -589,7 +589,7 @@ def unit(cfg):
 
     seq = mode == "seq"
     xi = symx.reals("xi", nxi)
-    if mode in ("mono", "seq"):
+    if mode in ("mono", "seq", "perm"):
         l0 = symx.real("lam")
         lam = [l0] * nxi
     else:
@@ -600,6 +600,13 @@ def unit(cfg):
     xi2 = [xi[0]] + symx.reals("eta", nxi)[1:-1] + [xi[-1]] if seq else xi
     theta, bg, ca, cb = (symx.real(n) for n in ("theta", "bg", "a", "b"))
     A = [xi[0].t > 0] + [xi[i].t < xi[i + 1].t for i in range(nxi - 1)]
+    if mode == "perm":
+        # spin-echo lengths NOT in ascending order (merged / interleaved scans): the value
+        # returned for data point j belongs to xi[j].  One non-monotone arrangement,
+        # xi0 < xi2 < xi1 with xi2 >= xi1/2 (the real code takes q_max from xi1 - xi0 and
+        # q_min from the LAST element; this keeps q_max/q_min = 30 xi2/(xi1-xi0) > 15)
+        assert nxi == 3
+        A = [xi[0].t > 0, xi[0].t < xi[2].t, xi[2].t < xi[1].t, 2 * xi[2].t >= xi[1].t]
     if seq:
         A += [xi2[i].t < xi2[i + 1].t for i in range(nxi - 1)]
     A += [l.t > 0 for l in (lam if mode == "tof" else lam[:1])]
@@ -718,7 +725,7 @@ def unit(cfg):
             return z3.Or(Cm[j][k] == ref_coeff(reading, j, k),
                          Cm[j][k] == ref_coeff(reading, j, k, strict=True))
 
-        readings = ["a"] if mode == "mono" else ["b", "a"]
+        readings = ["a"] if mode in ("mono", "perm") else ["b", "a"]
         chosen = readings[0]
         if len(readings) > 1:
             # which reading does this tree follow?  (screening only; the obligations
@@ -1049,9 +1056,9 @@ def configs(chk):
         return [(1, "mono", 4.0, 8), (1, "mono", 3.0, 8),
                 (2, "mono", 2.0, 8), (2, "mono", 1.5, 8), (2, "tof", 2.0, 8), (2, "tof", 1.5, 8),
                 (3, "mono", 2.0, 8), (3, "mono", 3.0, 8), (3, "tof", 2.0, 6), (3, "tof", 3.0, 6),
-                (3, "seq", 3.0, 5), (3, "seq", 2.0, 6)]
+                (3, "seq", 3.0, 5), (3, "seq", 2.0, 6), (3, "perm", 3.0, 6)]
     out = [(1, "mono", 4.0, 12), (1, "mono", 3.0, 12), (1, "mono", 2.0, 12)]
-    out += [(3, "seq", 3.0, 6), (3, "seq", 2.0, 7), (4, "seq", 3.0, 6)]
+    out += [(3, "seq", 3.0, 6), (3, "seq", 2.0, 7), (4, "seq", 3.0, 6), (3, "perm", 3.0, 8), (3, "perm", 2.0, 8)]
     for n in (2, 3, 4):
         for mode in ("mono", "tof"):
             for sp in (2.0, 1.5, 3.0):
@@ -1126,7 +1133,8 @@ def run(chk):
         "model object -> stand-in with the real sphere ModelInfo and a recording make_kernel",
     ]
     chk.assumptions = [
-        "spin-echo lengths positive and strictly increasing; wavelengths > 0; 0 < theta_max <= pi/2",
+        "spin-echo lengths positive and strictly increasing (units 'perm': three lengths in the non-monotone "
+        "order xi0 < xi2 < xi1, xi2 >= xi1/2); wavelengths > 0; 0 < theta_max <= pi/2",
         "exp/log: exp(log(qmin) + k*log(r)) = qmin*r^k and log(qmax)-log(qmin) <= k*log(r) <=> qmax <= qmin*r^k "
         "(instantiated for k <= bound; the double log(r) is identified with ln r)",
         "sin on [0,pi/2]: 2t/pi <= sin t <= t; asin on [0,1]: x <= asin x <= x*pi/2; asin(x) <= t <=> x <= sin t; "
